@@ -99,6 +99,9 @@ func init() {
 						// the Flocq model of the channel path (Num/Premul.v) on the table value of this channel code
 						tb := math.Float32bits(s.from16(uint16(ch)))
 						m := c.runner.Ask(fmt.Sprintf("linchan %d %d", tb, a))
+						if rng.Intn(2000) == 0 {
+							xcheck("linchan", 40, fmt.Sprintf("lin_channel_bits %d %d = %s", tb, a, m))
+						}
 						c.res.ModelCases++
 						c.res.Streams["linchan"]++
 						if m != fmt.Sprint(lin.R) {
@@ -116,6 +119,9 @@ func init() {
 				}
 				if c.runner != nil && si == 0 && (a%16 == 3 || c.thorough) && a > 0 {
 					m := c.runner.Ask(fmt.Sprintf("alpha16 %d", a))
+					if a%1600 == 3 {
+						xcheck("alpha16", 40, fmt.Sprintf("alpha16_bits %d = %s", a, m))
+					}
 					c.res.ModelCases++
 					c.res.Streams["alpha16"]++
 					if m != fmt.Sprint(math.Float32bits(alpha)) {
@@ -215,6 +221,9 @@ func init() {
 				}
 				c.res.Evaluations += a + 1
 			}
+		}
+		if st := writeXCheck(gdir, "From Coq Require Import ZArith.\nFrom PrismV Require Import Num.Quant Num.Reps Num.Premul."); st != nil {
+			c.res.GenStages = append(c.res.GenStages, st)
 		}
 		c.res.sample(map[string]interface{}{"fn": "srgb.LineariseColor", "pixel": "RGBA64{30000 15000 40000 40000}", "result": fmt.Sprint(spaces[0].linearise(color.RGBA64{30000, 15000, 40000, 40000}))})
 	}
